@@ -103,6 +103,16 @@ class Gen:
         f.sr = ['s0', 's1']
         f.xr = ['x0']
         f.tmp_i = ['t0', 't1', 't2', 't3']
+        # a variable tied to a callee-saved hard register ("GNU C global register variable"): the function saves the
+        # register's value first and restores it before its only ret, and never reads it before writing it, so the
+        # program is well defined under every engine (the interpreter keeps such variables in a per-context array)
+        f.gvar = None
+        if self.ok('global') and rng.random() < 0.3:
+            self.feats.add('global')
+            f.gvar = rng.choice(['rbx', 'r12', 'r13', 'r14', 'r15'])
+            f.gv_first = rng.random() < 0.5   # `global` line before or after the `local` line (register numbering)
+            e('mov gsv, gv')
+            f.ir = f.ir + ['gv']
         f.ncnt = 0
         f.nal = 0
         f.argregs = []
@@ -187,6 +197,8 @@ class Gen:
                 rets.append('s0')
             else:
                 rets.append('x0')
+        if f.gvar:
+            e('mov gv, gsv')
         e('ret ' + ', '.join(rets))
         f.body = out
 
@@ -319,6 +331,8 @@ class Gen:
             o += ['jmp %s' % le, '%s:' % la]
             o += self.stmts(f, 1, depth + 1, inloop)
             o.append('%s:' % le)
+        elif 0.82 <= r < 0.835 and self.ok('faddr'):
+            o += self.faddr(f, a)
         elif r < 0.82 and self.ok('alloca') and inloop == 1 and depth == 0:
             self.feats.add('alloca')
             # a register written by nothing but this alloca (MIR_link hoists constant-size allocas of
@@ -359,6 +373,24 @@ class Gen:
             return ['call p_cb, ext_cb, %s, %s, %s' % (a, g.name, b)]
         x = rng.choice(f.dr)
         return ['call p_cbd, ext_cbd, %s, %s, %s' % (x, g.name, rng.choice(f.dr))]
+
+    def faddr(self, f, a):
+        """a function address is one value however and whenever it is obtained: as a ref operand, from a `ref` data
+        table, in another module through an import, in the C host through item->addr"""
+        rng = self.rng
+        cands = [g for g in self.funcs if g.rank >= f.rank]
+        g = rng.choice(cands)
+        self.feats.add('faddr')
+        self.use(f, g)
+        if rng.random() < 0.5:
+            # the C host says which function this is (index of the function whose public address it is, -1 if none)
+            return ['call p_id, ext_id, t0, %s' % g.name, 'mul %s, %s, 5' % (a, a), 'add %s, %s, t0' % (a, a)]
+        f.reftab = getattr(f, 'reftab', [])
+        if g.name not in f.reftab:
+            f.reftab.append(g.name)
+        idx = f.reftab.index(g.name)
+        return ['mov t1, %s' % g.name, 'mov t3, ft_%s' % f.name, 'mov t2, i64:%d(t3)' % (8 * idx), 'eq t0, t1, t2',
+                'lsh %s, %s, 1' % (a, a), 'add %s, %s, t0' % (a, a)]
 
     def use(self, f, g):
         f.uses = getattr(f, 'uses', set())
@@ -466,7 +498,7 @@ class Gen:
             for f in mf:
                 used |= getattr(f, 'uses', set())
             imports = sorted(u for u in used if byname[u].module != m)
-            txt.append('  import ext_log, ext_cb, ext_cbd, ext_d2, ext_va' + ''.join(', ' + i for i in imports))
+            txt.append('  import ext_log, ext_cb, ext_cbd, ext_d2, ext_va, ext_id' + ''.join(', ' + i for i in imports))
             txt.append('  export mem%d%s' % (m, ''.join(', ' + f.name for f in mf)))
             fw = []
             for f in mf:
@@ -482,6 +514,7 @@ class Gen:
             txt.append('p_cbd: proto d, p:fn, d:x')
             txt.append('p_d2: proto d, d:a, d:b')
             txt.append('p_eva: proto i64, i64:n, ...')
+            txt.append('p_id: proto i64, p:fn')
             for u in sorted(used | {f.name for f in mf}):
                 g = byname[u]
                 txt.append(self.proto_text('p_' + g.name, g.args, g.rets, g.vararg))
@@ -491,11 +524,17 @@ class Gen:
                 if f.vararg:
                     hdr.append('...')
                 txt.append('%s: func %s' % (f.name, ', '.join(hdr)))
-                loc = ['i64:' + r for r in f.ir + f.tmp_i] + ['d:' + r for r in f.dr] + ['f:' + r for r in f.sr] + ['ld:x0']
+                loc = ['i64:' + r for r in f.ir + f.tmp_i if r != 'gv'] + ['d:' + r for r in f.dr] + ['f:' + r for r in f.sr] + ['ld:x0']
                 loc += ['i64:c%d' % i for i in range(f.ncnt)] + ['i64:al%d' % i for i in range(f.nal)]
                 if f.kind == 'va':
                     loc.append('i64:va')
+                if f.gvar:
+                    loc.append('i64:gsv')
+                if f.gvar and f.gv_first:
+                    txt.append('  global i64:gv:' + f.gvar)
                 txt.append('  local ' + ', '.join(loc))
+                if f.gvar and not f.gv_first:
+                    txt.append('  global i64:gv:' + f.gvar)
                 for l in f.body:
                     txt.append(('%s' % l) if l.endswith(':') else '  ' + l)
                 txt.append('  endfunc')
